@@ -27,6 +27,13 @@ def contribL (l : List (Nat × Int)) (c : Nat) : Int :=
 @[simp] theorem contribL_cons (p l c) :
     contribL (p :: l) c = (if p.1 = c then p.2 else 0) + contribL l c := by
   simp [contribL]
+/-- the contribution of a concatenation is the sum of the contributions -/
+theorem contribL_app (l1 l2 c) : contribL (l1 ++ l2) c = contribL l1 c + contribL l2 c := by
+  simp [contribL]
+/-- the contribution of a list does not depend on where one entry stands -/
+theorem contribL_middle (l1 l2 : List (Nat × Int)) (p : Nat × Int) (c : Nat) :
+    contribL (l1 ++ p :: l2) c = contribL (p :: (l1 ++ l2)) c := by
+  simp only [contribL_app, contribL_cons]; omega
 
 def totW (D : List Obs) : Nat := (D.map (·.w)).sum
 def tot (D : List Obs) (c : Nat) : Int := (D.map (fun o => contribL o.upd c)).sum
@@ -101,11 +108,13 @@ inductive Step (k : Nat) : St → St → Prop
         n := s.n + o.w
         claimed := s.claimed ++ [o]
         asg := modAsg s.asg s.hot (· ++ [o]) }
+  /- the cell updates of one observation may be applied in ANY order: the task applies any one
+     entry `(c, a)` of the list it still has to apply (`l1 ++ (c, a) :: l2` becomes `l1 ++ l2`) -/
   | apply (s : St) (pre post : List Task) (o : Obs) (b : Bool) (c : Nat) (a : Int)
-      (rest : List (Nat × Int))
-      (ht : s.tasks = pre ++ Task.obsRun o b ((c, a) :: rest) :: post) :
+      (l1 l2 : List (Nat × Int))
+      (ht : s.tasks = pre ++ Task.obsRun o b (l1 ++ (c, a) :: l2) :: post) :
       Step k s { s with
-        tasks := pre ++ Task.obsRun o b rest :: post
+        tasks := pre ++ Task.obsRun o b (l1 ++ l2) :: post
         sh := modSh s.sh b (fun x => { x with cell := setCell x.cell c (x.cell c + a) }) }
   | publish (s : St) (pre post : List Task) (o : Obs) (b : Bool)
       (ht : s.tasks = pre ++ Task.obsRun o b [] :: post) :
